@@ -43,12 +43,14 @@ def oracle_trace(ctx, case, trace, followup=False, static=None):
     S = {s["id"]: s["S"] for s in case["sites"]}
     prev_queue = []
     prev_done = {}
+    charged = {}  # minutes charged to crews for the running survey of a site (sum of time_surveyed_current_day)
     acc = {}  # minutes accumulated for the running survey of a site
     booked = {}  # site -> minutes its unfinished survey has on the report (from the reports' minutes, i.e. the
     #              HISTORY of the survey; "interrupted" = booked > 0 and not complete, never the in-progress flag)
     # crew_count 0 = LDAR-Sim's own (documented) estimate, computed from the configuration by the harness
     n_crews = case["crews"] if case["crews"] > 0 else (case.get("_crews_estimate") or case.get("_crews_used") or 0)
-    n_cap = None if kind == "stationary" else n_crews * case["_cap_used"]
+    cap_c = case["cap"] if case.get("cap") is not None else case.get("_cap_documented", case["_cap_used"])
+    n_cap = None if kind == "stationary" else n_crews * cap_c
     for k, rec in enumerate(trace):
         if rec["crash"]:
             yr_missing = static is not None and any(rec["date"][0] not in st["sim_years"] for st in static)
@@ -186,6 +188,13 @@ def oracle_trace(ctx, case, trace, followup=False, static=None):
             o = outs[i]
             if o[1] in "CP":
                 acc[i] = acc.get(i, 0) + o[2]
+                charged[i] = charged.get(i, 0) + o[4]
+                if o[1] == "C":
+                    if charged[i] != S[i] and kind != "stationary":
+                        ctx.violate("C07:minutes:charged-minutes-differ-from-survey-time",
+                                    f"site {i}: the minutes surveyed day by day add up to {charged[i]}, the survey time "
+                                    f"is {S[i]}", inp)
+                    charged.pop(i)
                 if o[4] != o[2]:
                     ctx.violate("C07:minutes", f"site {i}: time_surveyed_current_day {o[4]} != minutes added {o[2]}", inp)
                 if o[1] == "C":
@@ -195,6 +204,9 @@ def oracle_trace(ctx, case, trace, followup=False, static=None):
                 elif not (0 < acc[i] < S[i]) or acc[i] != o[3]:
                     ctx.violate("C07:minutes", f"site {i}: in progress with {acc[i]} of {S[i]} minutes (report {o[3]})", inp)
         # a dropped follow-up discards its progress with the plan object
+        for i in list(charged):
+            if i not in after:
+                charged.pop(i)
         for i in list(acc):
             if i not in after:
                 acc.pop(i)
@@ -259,12 +271,15 @@ def random_routine(rng, big=False):
     for _ in range(nd):
         r = rng.random()
         weather.append(1 if r < 0.6 else (0 if r < 0.8 else [rng.choice([0, 1]) for _ in range(ns)]))
+    extra = {}
+    if rng.random() < 0.12:
+        extra = {"daylight": rng.choice([7.625, 6.8125, 5.375, 3.5]), "scale": 16}
     if rng.random() < 0.15:
         T = rng.choice([[15, 45], [0, 30, 60], [10.4, 20.6]])  # several travel times (sampled per visit)
     return H.decorate(rng, {"kind": "routine", "method_class": rng.choice(["site", "component"]), "start": start,
                             "end": [start[0] + 1, 12, 31], "ndays": nd, "crews": rng.randint(1, 3),
                             "cap": rng.choice([None, 1, 2, 3]), "T": T, "hours": hours, "sites": sites,
-                            "weather": weather})
+                            "weather": weather, **extra})
 
 
 def boundary_histories():
@@ -284,6 +299,22 @@ def boundary_histories():
                                 "crews": crews, "cap": cap if kind == "routine" else None, "T": T, "hours": hours,
                                 "sites": [{"id": i + 1, "freq": 12, "deploy": True, "months": list(range(1, 13)),
                                            "years": [], "S": S} for i in range(ns)], "weather": mask})
+    return out
+
+
+def daylight_histories():
+    """fractional daylight hours (workday minutes with a fraction) and surveys that take several days: the minutes
+    booked and charged over the days must still add up to the survey time exactly"""
+    out = []
+    for dl in (7.625, 6.8125, 5.375):
+        for (S, T) in ((600, 0), (900, 15), (1000, 30), (500, 15)):
+            for crews, cap, ns in ((1, 1, 2), (2, 1, 3), (1, 2, 3)):
+                for mask in ([1] * 6, [1, 1, 0, 1, 1, 1]):
+                    out.append({"kind": "routine", "method_class": "component" if crews == 1 else "site",
+                                "start": [2024, 1, 29], "end": [2024, 12, 31], "ndays": 6, "crews": crews, "cap": cap,
+                                "T": T, "hours": 10, "daylight": dl, "scale": 16,
+                                "sites": [{"id": i + 1, "freq": 12, "deploy": True, "months": [1, 2], "years": [],
+                                           "S": S if i % 2 == 0 else 60} for i in range(ns)], "weather": mask})
     return out
 
 
@@ -448,7 +479,7 @@ def run(ctx):
         c, fn = random_followup(rng, big=(k % 10 == 0))
         fns[id(c)] = fn
         cases.append(c)
-    cases += boundary_histories()
+    cases += boundary_histories() + daylight_histories()
     # the stored witness of F13 (a site flagged twice by its callers), always replayed
     cases.append({"kind": "followup", "method_class": "component", "start": [2024, 3, 1], "end": [2024, 12, 31],
                   "ndays": 2, "crews": 1, "cap": 2, "T": 0, "hours": 8, "sites": [{"id": 1, "S": 60}, {"id": 2, "S": 60}],
